@@ -237,36 +237,36 @@ func (c *Ctx) activitySignalRule(rule string) {
 					continue
 				}
 				found = true
-				var h *ssa.Function
-				switch x := ci.Common().Args[1].(type) {
-				case *ssa.MakeClosure:
-					h, _ = x.Fn.(*ssa.Function)
-				case *ssa.Function:
-					h = x
-				}
-				if h == nil {
+				hs := c.funcsOf(ci.Common().Args[1])
+				if len(hs) == 0 {
 					c.und(RULE, construct, c.ipos(ci), "handler is not a function literal")
 					continue
 				}
-				sig := false
+				sig := true
 				blocking := false
-				allInstrs(h, func(in ssa.Instruction) {
-					switch x := in.(type) {
-					case *ssa.Select:
-						for _, st := range x.States {
-							if st.Dir == types.SendOnly && isLoadOf(st.Chan, r.FPongs) {
-								sig = true
-								if x.Blocking {
-									blocking = true
+				for _, h := range hs {
+					hsig := false
+					p.coneInstrs(h, func(in ssa.Instruction) {
+						switch x := in.(type) {
+						case *ssa.Select:
+							for _, st := range x.States {
+								if st.Dir == types.SendOnly && c.fieldVal(st.Chan, r.FPongs) {
+									hsig = true
+									if x.Blocking {
+										blocking = true
+									}
 								}
 							}
+						case *ssa.Send:
+							if c.fieldVal(x.Chan, r.FPongs) {
+								hsig, blocking = true, true
+							}
 						}
-					case *ssa.Send:
-						if isLoadOf(x.Chan, r.FPongs) {
-							sig, blocking = true, true
-						}
+					})
+					if !hsig {
+						sig = false
 					}
-				})
+				}
 				if !sig {
 					c.bad(RULE, construct, c.ipos(ci), "the handler does not signal the connection loop: the loop's idle timer is not re-armed by this kind of peer activity and closes a healthy connection (go-jsonrpc peers never answer pings with pongs, so peer pings are the activity signal)")
 				} else if blocking {
